@@ -211,38 +211,43 @@ def idxOfTargets (fnLoc : Loc) (a : Args) (targets : List String) : Option Int :
 
 def inRange (k : Int) (n : Nat) : Bool := decide (0 ≤ k) && decide (k < (n : Int))
 
+/-- `emit_arg(self.replacement_node)` as `visit_FunctionDef` computes it: an `AnnAssign` gives `name: annotation`,
+    an `Assign` gives `name: <its value>` (`set_arg(arg=targets[0].id, annotation=value)`), an `ast.arg` is kept;
+    `none`: the `assert isinstance(…, ast.arg)` fails (a `ClassDef`/`FunctionDef` replacement) -/
+def asArg : Node → Option Arg
+  | .arg r => some r
+  | .stmt (.ann t ann _) => some { name := t, ann := some ann }
+  | .stmt (.assign (t0 :: _) v) => some { name := t0, ann := some v }
+  | .stmt _ => none
+
 structure Prep where
   args : Args
-  /-- `emit_arg(self.replacement_node)`; `none`: the `assert isinstance(…, ast.arg)` fails -/
+  /-- `emit_arg(self.replacement_node)` -/
   repl : Option Arg
   poisoned : Bool := false
   /-- a default was overwritten -/
   touched : Bool := false
 
 /-- first half of `visit_FunctionDef` (default transfer, conversion of the replacement node to an `ast.arg`) -/
-def prepare (fnLoc : Loc) (a : Args) : Node → Prep
-  | .arg r => { args := a, repl := some r }
-  | .stmt (.ann t ann v) =>
-    let r : Arg := { name := t, ann := some ann }
-    match idxOfName fnLoc a t, v with
-    | some idx, some val =>
-      let k := defaultIndex a idx
-      if inRange k a.defaults.length then
-        { args := { a with defaults := a.defaults.set k.toNat val }, repl := some r, touched := true }
-      else { args := a, repl := some r }
-    | _, _ => { args := a, repl := some r }
-  | .stmt (.assign ts v) =>
-    match ts with
-    | [] => { args := a, repl := none }
-    | t0 :: _ =>
-      let r : Arg := { name := t0, ann := some v }
-      match idxOfTargets fnLoc a ts with
-      | some idx =>
-        -- `get_value(<the new ast.arg>)` is the arg node itself: it is stored as the default value
-        if inRange (defaultIndex a idx) a.defaults.length then { args := a, repl := some r, poisoned := true, touched := true }
-        else { args := a, repl := some r }
-      | none => { args := a, repl := some r }
-  | .stmt _ => { args := a, repl := none }
+def prepare (fnLoc : Loc) (a : Args) (node : Node) : Prep :=
+  match node with
+  | .stmt (.ann t _ (some val)) =>
+    -- `get_value(AnnAssign)` is its `.value` node; a missing value (`NoneStr`) is in `none_types`: no transfer
+    match idxOfName fnLoc a t with
+    | some idx =>
+      if inRange (defaultIndex a idx) a.defaults.length then
+        { args := { a with defaults := a.defaults.set (defaultIndex a idx).toNat val }, repl := asArg node, touched := true }
+      else { args := a, repl := asArg node }
+    | none => { args := a, repl := asArg node }
+  | .stmt (.assign ts _) =>
+    match idxOfTargets fnLoc a ts with
+    | some idx =>
+      -- `get_value(<the new ast.arg>)` is the arg node itself: it is stored as the default value
+      if inRange (defaultIndex a idx) a.defaults.length then
+        { args := a, repl := asArg node, poisoned := true, touched := true }
+      else { args := a, repl := asArg node }
+    | none => { args := a, repl := asArg node }
+  | _ => { args := a, repl := asArg node }
 
 /-- `for idx in range(len(arg_l)): if arg_l[idx]._location == self.search: arg_l[idx] = …; break` -/
 def replaceFirst (fnLoc search : Loc) (r : Arg) : List Arg → List Arg × Bool
